@@ -450,25 +450,46 @@ func ruleF12(r *Run) {
 	info := pkg.TypesInfo
 	// functions of the package that parse decimal text at 64 bits
 	parses64 := map[*types.Func]bool{}
+	// the bit size of a ParseFloat call: a constant, a local with one constant definition (what a substituted helper leaves:
+	// var bitSize int = 32), or -1 with the parameter that carries it
+	paramBits := map[*types.Func]int{}
+	var curDefs map[types.Object]ast.Expr
+	var curParams []*types.Var
 	bitSize := func(c *ast.CallExpr) (int64, bool) {
 		if FullNameOf(info, c) != "strconv.ParseFloat" || len(c.Args) != 2 {
 			return 0, false
 		}
-		v, ok := intConst(info, c.Args[1])
-		if !ok {
-			return 0, true // not a constant: decided at the conversion
+		if v, ok := intConst(info, c.Args[1]); ok {
+			return v, true
 		}
-		return v, true
+		if o := identObj(info, c.Args[1]); o != nil {
+			if d, ok := curDefs[o]; ok && d != nil {
+				if v, ok := intConst(info, d); ok {
+					return v, true
+				}
+			}
+			for i, pv := range curParams {
+				if pv == o {
+					return int64(-1 - i), true
+				}
+			}
+		}
+		return 0, true
 	}
 	p.EachFunc(func(fp *packages.Package, fd *ast.FuncDecl) {
 		if fp != pkg {
 			return
 		}
+		curDefs, curParams = localDefs(info, fd.Body), paramsOf(info, fd.Type)
 		ast.Inspect(fd.Body, func(m ast.Node) bool {
 			if c, ok := m.(*ast.CallExpr); ok {
 				if v, isPF := bitSize(c); isPF && v != 32 {
 					if f, _ := info.Defs[fd.Name].(*types.Func); f != nil {
-						parses64[f] = true
+						if v < 0 {
+							paramBits[f] = int(-1 - v)
+						} else {
+							parses64[f] = true
+						}
 					}
 				}
 			}
@@ -481,6 +502,7 @@ func ruleF12(r *Run) {
 			return
 		}
 		k := 0
+		curDefs, curParams = localDefs(info, fd.Body), paramsOf(info, fd.Type)
 		ast.Inspect(fd.Body, func(m ast.Node) bool {
 			conv, ok := m.(*ast.CallExpr)
 			if !ok {
@@ -515,6 +537,17 @@ func ruleF12(r *Run) {
 			}
 			v, isPF := bitSize(src)
 			callee := Callee(info, src)
+			if pi, parametric := paramBits[callee]; !isPF && callee != nil && parametric {
+				// a helper that parses at the bit size it is given: the argument decides
+				if pi < len(src.Args) {
+					if av, ok := intConst(info, src.Args[pi]); ok {
+						v, isPF = av, true
+					}
+				}
+				if !isPF {
+					return true
+				}
+			}
 			if !isPF && (callee == nil || !parses64[callee]) {
 				return true
 			}
